@@ -789,6 +789,9 @@ impl S3 for FileSystem {
             parts.push(part);
         }
 
+        // parts are listed in ascending order of their part number, not in directory order
+        parts.sort_by_key(|part| part.part_number);
+
         let output = ListPartsOutput {
             bucket: Some(bucket),
             key: Some(key),
